@@ -1,6 +1,6 @@
 """C01 - containers behave as a sorted map / sorted set."""
 import json, os, sys
-from harness import common, tlc, shapes, embed, replayplan as RP
+from harness import common, tlc, shapes, embed, replayplan as RP, tracecheck
 
 INVS = ('AbsOK', 'ResOK', 'LookupOK', 'Sound')
 PROPS = ('ErrUnchanged',)
@@ -38,6 +38,16 @@ def main():
     plan = RP.plan_jobs(ck, dumps, fams, ('c', 'py'), ('ext',) if quick else ('mid', 'ext'),
                         1200 if quick else 20000, 400 if quick else 4000, ['observe', 'checkers'])
     RP.run_plan(ck, plan)
+    # 3. code -> spec: recorded random histories of the whole API, validated by TLC against Layer A
+    hplan = []
+    for fam in fams:
+        for impl in ('c', 'py'):
+            for kind in ('BTree', 'Bucket', 'TreeSet', 'Set'):
+                for (lf, it, nk, emb) in ((2, 2, 12, 'ext'), (3, 2, 16, 'mid'), (None, None, 16, 'ext')):
+                    hplan.append(dict(fam=fam, impl=impl, kind=kind, emb=emb, leaf=lf, internal=it, nkeys=nk,
+                                      ntraces=4 if quick else 40, length=60 if quick else 200,
+                                      seed=ck.seed * 1000 + len(hplan), structure=False))
+    tracecheck.run_histories(ck, hplan, structure_judge=False)
     ck.assumptions += ['keys of one container are mutually comparable',
                        'model keys/values are embedded order-preservingly into each family (harness/embed.py)',
                        'node sizes >= 2']
